@@ -51,9 +51,48 @@ pub mod time {
         #[verifier::external_body]
         pub fn as_millis(&self) -> (r: u128) ensures r == self@ / 1_000_000 { unimplemented!() }
         #[verifier::external_body]
-        pub const fn from_millis(ms: u64) -> (r: Duration) ensures r@ == ms as int * 1_000_000 { Duration { ns: ms as u128 * 1_000_000 } }
+        pub exec const MAX: Duration ensures Self::MAX@ == dur_max() { Duration { ns: 0 } }
         #[verifier::external_body]
-        pub const fn from_secs(s: u64) -> (r: Duration) ensures r@ == s as int * 1_000_000_000 { Duration { ns: s as u128 * 1_000_000_000 } }
+        pub fn is_zero(&self) -> (r: bool) ensures r == (self@ == 0) { unimplemented!() }
+        // Ord::min / Ord::max on Duration
+        #[verifier::external_body]
+        pub fn min(self, o: Duration) -> (r: Duration) ensures r@ == (if o@ < self@ { o@ } else { self@ }) { unimplemented!() }
+        #[verifier::external_body]
+        pub fn max(self, o: Duration) -> (r: Duration) ensures r@ == (if o@ > self@ { o@ } else { self@ }) { unimplemented!() }
+        #[verifier::external_body]
+        pub fn saturating_sub(self, o: Duration) -> (r: Duration) ensures r@ == (if self@ >= o@ { self@ - o@ } else { 0 }) { unimplemented!() }
+        #[verifier::external_body]
+        pub fn saturating_add(self, o: Duration) -> (r: Duration) ensures r@ == (if self@ + o@ <= dur_max() { self@ + o@ } else { dur_max() }) { unimplemented!() }
+        #[verifier::external_body]
+        pub fn saturating_mul(self, k: u32) -> (r: Duration) ensures r@ == (if self@ * k <= dur_max() { self@ * k } else { dur_max() }) { unimplemented!() }
+        #[verifier::external_body]
+        pub fn checked_sub(self, o: Duration) -> (r: Option<Duration>) ensures match r { Some(d) => self@ >= o@ && d@ == self@ - o@, None => self@ < o@ } { unimplemented!() }
+        #[verifier::external_body]
+        pub fn checked_add(self, o: Duration) -> (r: Option<Duration>) ensures match r { Some(d) => self@ + o@ <= dur_max() && d@ == self@ + o@, None => self@ + o@ > dur_max() } { unimplemented!() }
+        #[verifier::external_body]
+        pub fn checked_mul(self, k: u32) -> (r: Option<Duration>) ensures match r { Some(d) => self@ * k <= dur_max() && d@ == self@ * k, None => self@ * k > dur_max() } { unimplemented!() }
+        pub open spec fn spec_from_micros(us: u64) -> Duration { dur_of(us as int * 1_000) }
+        #[verifier::external_body]
+        #[verifier::when_used_as_spec(spec_from_micros)]
+        pub const fn from_micros(us: u64) -> (r: Duration) ensures r == Self::spec_from_micros(us), r@ == us as int * 1_000 { Duration { ns: us as u128 * 1_000 } }
+        pub open spec fn spec_from_nanos(n: u64) -> Duration { dur_of(n as int * 1) }
+        #[verifier::external_body]
+        #[verifier::when_used_as_spec(spec_from_nanos)]
+        pub const fn from_nanos(n: u64) -> (r: Duration) ensures r == Self::spec_from_nanos(n), r@ == n as int { Duration { ns: n as u128 } }
+        #[verifier::external_body]
+        pub fn as_nanos(&self) -> (r: u128) ensures r == self@ { unimplemented!() }
+        #[verifier::external_body]
+        pub fn as_micros(&self) -> (r: u128) ensures r == self@ / 1_000 { unimplemented!() }
+        #[verifier::external_body]
+        pub fn as_secs(&self) -> (r: u64) ensures r == self@ / 1_000_000_000 { unimplemented!() }
+        pub open spec fn spec_from_millis(ms: u64) -> Duration { dur_of(ms as int * 1_000_000) }
+        #[verifier::external_body]
+        #[verifier::when_used_as_spec(spec_from_millis)]
+        pub const fn from_millis(ms: u64) -> (r: Duration) ensures r == Self::spec_from_millis(ms), r@ == ms as int * 1_000_000 { Duration { ns: ms as u128 * 1_000_000 } }
+        pub open spec fn spec_from_secs(s: u64) -> Duration { dur_of(s as int * 1_000_000_000) }
+        #[verifier::external_body]
+        #[verifier::when_used_as_spec(spec_from_secs)]
+        pub const fn from_secs(s: u64) -> (r: Duration) ensures r == Self::spec_from_secs(s), r@ == s as int * 1_000_000_000 { Duration { ns: s as u128 * 1_000_000_000 } }
     }
 
     impl core::ops::Mul<u32> for Duration {
@@ -87,6 +126,52 @@ pub mod time {
         open spec fn obeys_add_spec() -> bool { true }
         open spec fn add_req(self, rhs: Duration) -> bool { self@ + rhs@ <= inst_max() }   // std panics on overflow
         open spec fn add_spec(self, rhs: Duration) -> Instant { inst_of(self@ + rhs@) }
+    }
+
+    // Duration comparisons (derived Ord: by value)
+    impl PartialEq for Duration { #[verifier::external_body] fn eq(&self, o: &Self) -> bool { unimplemented!() } }
+    impl vstd::std_specs::cmp::PartialEqSpecImpl for Duration {
+        open spec fn obeys_eq_spec() -> bool { true }
+        open spec fn eq_spec(&self, o: &Self) -> bool { self@ == o@ }
+    }
+    impl PartialOrd for Duration { #[verifier::external_body] fn partial_cmp(&self, o: &Self) -> Option<core::cmp::Ordering> { unimplemented!() } }
+    impl vstd::std_specs::cmp::PartialOrdSpecImpl for Duration {
+        open spec fn obeys_partial_cmp_spec() -> bool { true }
+        open spec fn partial_cmp_spec(&self, o: &Self) -> Option<core::cmp::Ordering> {
+            if self@ < o@ { Some(core::cmp::Ordering::Less) } else if self@ == o@ { Some(core::cmp::Ordering::Equal) } else { Some(core::cmp::Ordering::Greater) }
+        }
+    }
+    impl PartialEq for Instant { #[verifier::external_body] fn eq(&self, o: &Self) -> bool { unimplemented!() } }
+    impl vstd::std_specs::cmp::PartialEqSpecImpl for Instant {
+        open spec fn obeys_eq_spec() -> bool { true }
+        open spec fn eq_spec(&self, o: &Self) -> bool { self@ == o@ }
+    }
+    impl PartialOrd for Instant { #[verifier::external_body] fn partial_cmp(&self, o: &Self) -> Option<core::cmp::Ordering> { unimplemented!() } }
+    impl vstd::std_specs::cmp::PartialOrdSpecImpl for Instant {
+        open spec fn obeys_partial_cmp_spec() -> bool { true }
+        open spec fn partial_cmp_spec(&self, o: &Self) -> Option<core::cmp::Ordering> {
+            if self@ < o@ { Some(core::cmp::Ordering::Less) } else if self@ == o@ { Some(core::cmp::Ordering::Equal) } else { Some(core::cmp::Ordering::Greater) }
+        }
+    }
+    impl core::ops::Add<Duration> for Duration {
+        type Output = Duration;
+        #[verifier::external_body]
+        fn add(self, rhs: Duration) -> Duration { unimplemented!() }
+    }
+    impl vstd::std_specs::ops::AddSpecImpl<Duration> for Duration {
+        open spec fn obeys_add_spec() -> bool { true }
+        open spec fn add_req(self, rhs: Duration) -> bool { self@ + rhs@ <= dur_max() }   // std panics on overflow
+        open spec fn add_spec(self, rhs: Duration) -> Duration { dur_of(self@ + rhs@) }
+    }
+    impl core::ops::Sub<Duration> for Duration {
+        type Output = Duration;
+        #[verifier::external_body]
+        fn sub(self, rhs: Duration) -> Duration { unimplemented!() }
+    }
+    impl vstd::std_specs::ops::SubSpecImpl<Duration> for Duration {
+        open spec fn obeys_sub_spec() -> bool { true }
+        open spec fn sub_req(self, rhs: Duration) -> bool { self@ >= rhs@ }   // std panics on underflow
+        open spec fn sub_spec(self, rhs: Duration) -> Duration { dur_of(self@ - rhs@) }
     }
 
     // `Instant += Duration` is rewritten by rule R10 to `i = i + d` (std's impl is literally `*self = *self + other`)
